@@ -512,6 +512,7 @@ func scenPty(out *scenOut, rr *rng, thorough bool) {
 			ptySuspend(out, mode)
 		}
 		ptySizeQueryShapes(out)
+		ptyResizeNoSignals(out)
 		ptyResizeWhileUpdateBusy(out)
 		ptyResizeBeforeSubscription(out)
 		ptyFilterSeesSizes(out)
@@ -1290,5 +1291,35 @@ func ptyStaleCommandQuery(out *scenOut) {
 	if !ok || len(got) == 0 || got[len(got)-1] != "100 30" {
 		out.fail(finding{Property: "C18", Class: "new", What: "a resize that overlapped another size query was never reported (or a stale size was delivered after it): the size Update saw last is not the terminal's true size", Input: desc,
 			Expected: "last size 100 30", Observed: strings.Join(got, ", ")})
+	}
+}
+
+// ptyResizeNoSignals: a program built with WithoutSignals (it wants SIGINT / SIGTERM left alone)
+// still learns every new window size: the option is about the signals that END a program.
+func ptyResizeNoSignals(out *scenOut) {
+	desc := "WithoutSignals; resize to 100x30, then to 90x25"
+	r, err := startPtyChild("nosignals", 80, 24)
+	if err != nil {
+		return
+	}
+	defer r.cleanup()
+	if !r.waitLog("size ", 5*time.Second) {
+		out.fail(finding{Property: "C18", Class: "new", What: "no WindowSizeMsg at start-up although the output is a terminal (WithoutSignals)", Input: desc})
+		return
+	}
+	time.Sleep(40 * time.Millisecond)
+	out.record("resize-no-signals", desc)
+	for _, sz := range [][2]int{{100, 30}, {90, 25}} {
+		setWinsize(r.pair.master, sz[0], sz[1])
+		want := fmt.Sprintf("%d %d", sz[0], sz[1])
+		if !waitFor(3*time.Second, func() bool { s := r.sizes(); return len(s) > 0 && s[len(s)-1] == want }) {
+			out.fail(finding{Property: "C18", Class: "new", What: "a resize was not reported to a program built with WithoutSignals", Input: desc, Expected: "last size " + want, Observed: strings.Join(r.sizes(), ", ")})
+			break
+		}
+	}
+	r.pair.master.Write([]byte("q"))
+	select {
+	case <-r.exited:
+	case <-time.After(3 * time.Second):
 	}
 }
